@@ -273,12 +273,15 @@ static int sync_hook (int op, void *obj, void *obj2, int arg, int arg2, int *res
 }
 
 /* ---- thread bodies ------------------------------------------------------------------ */
-static void notify_fn (DBusPendingCall *p, void *data) { (void) p; pc[(intptr_t) data].notified++; pc[(intptr_t) data].notify_step = ++steps; }
+/* the harness's own bookkeeping uses atomics so that the ThreadSanitizer pass only reports races inside libdbus */
+#define A_INC(x) __atomic_add_fetch (&(x), 1, __ATOMIC_SEQ_CST)
+#define A_SET(x, v) __atomic_store_n (&(x), (v), __ATOMIC_SEQ_CST)
+static void notify_fn (DBusPendingCall *p, void *data) { (void) p; A_INC (pc[(intptr_t) data].notified); A_SET (pc[(intptr_t) data].notify_step, A_INC (steps)); }
 
 static void run_body (const char *b)
 {
-  if (!strncmp (b, "block", 5)) { int i = b[5] - '0'; dbus_pending_call_block (pc[i].p); pc[i].block_returned = 1; }
-  else if (!strncmp (b, "cancel", 6)) { int i = b[6] - '0'; dbus_pending_call_cancel (pc[i].p); pc[i].cancelled = 1; pc[i].cancel_step = ++steps; }
+  if (!strncmp (b, "block", 5)) { int i = b[5] - '0'; dbus_pending_call_block (pc[i].p); A_SET (pc[i].block_returned, 1); }
+  else if (!strncmp (b, "cancel", 6)) { int i = b[6] - '0'; dbus_pending_call_cancel (pc[i].p); A_SET (pc[i].cancelled, 1); A_SET (pc[i].cancel_step, A_INC (steps)); }
   else if (!strcmp (b, "close")) dbus_connection_close (conn);
   else if (!strcmp (b, "dispatch"))
     {
